@@ -11,7 +11,7 @@ use std::cmp::Ordering;
 use rlib_num_traits::ZeroOne;
 use rlib_show::{Show, ShowSettings};
 
-#[derive(Clone, Copy, PartialEq, Eq)]
+#[derive(Clone, Copy)]
 #[repr(align(16))]
 #[allow(non_camel_case_types)]
 pub struct f80([u8; 10]);
@@ -93,37 +93,52 @@ define_f80_assign_op!(DivAssign, div_assign, div);
 
 define_f80_unary_op!(Neg, neg, "fchs");
 
-impl PartialOrd<f80> for f80 {
-    fn lt(&self, rhs: &f80) -> bool {
-        let mut res = std::mem::MaybeUninit::<u32>::uninit();
+// Compares `rhs` (st) with `self` (st(1)) and returns the given flag condition of `fcomip`;
+// an unordered result (a NaN operand) sets CF, ZF and PF.
+macro_rules! f80_compare {
+    ($lhs:expr, $rhs:expr, $($set:literal),+) => {{
+        let e: u32;
         unsafe {
-            let e: u32;
             core::arch::asm! {
                 "fld     TBYTE PTR [{0}]",
                 "fld     TBYTE PTR [{1}]",
                 "fcomip  st, st(1)",
                 "fstp    st(0)",
-                "seta    al",
-                in(reg) self.0.as_ptr(),
-                in(reg) rhs.0.as_ptr(),
+                $($set,)+
+                in(reg) $lhs.0.as_ptr(),
+                in(reg) $rhs.0.as_ptr(),
                 out("eax") e,
+                out("ecx") _,
                 options(nostack)
             }
-            *res.as_mut_ptr() = e;
-            (res.assume_init() & 1) > 0
         }
+        (e & 1) > 0
+    }};
+}
+
+impl PartialEq for f80 {
+    // IEEE equality: -0 == +0, NaN != NaN (ZF set and not unordered)
+    fn eq(&self, rhs: &f80) -> bool {
+        f80_compare!(self, rhs, "sete    al", "setnp   cl", "and     al, cl")
+    }
+}
+
+impl PartialOrd<f80> for f80 {
+    fn lt(&self, rhs: &f80) -> bool {
+        f80_compare!(self, rhs, "seta    al")
     }
 
     fn gt(&self, rhs: &f80) -> bool {
         rhs.lt(self)
     }
 
+    // rhs >= self; false when unordered (CF is set)
     fn le(&self, rhs: &f80) -> bool {
-        !self.gt(rhs)
+        f80_compare!(self, rhs, "setae   al")
     }
 
     fn ge(&self, rhs: &f80) -> bool {
-        !self.lt(rhs)
+        rhs.le(self)
     }
 
     fn partial_cmp(&self, rhs: &f80) -> Option<Ordering> {
